@@ -1370,8 +1370,22 @@ func buildExactHistory(dir string, r *rand.Rand, count func(string)) *histRepo {
 		return proj.Commit(dir, tree, date, "c")
 	}
 	var err error
-	h.topo = []string{"linear", "linear", "linear", "pr-older", "pr-newer", "merged-old", "merged-old"}[r.Intn(7)]
+	h.topo = []string{"linear", "linear", "linear", "pr-older", "pr-newer", "merged-old", "merged-old", "pr-conflict"}[r.Intn(8)]
 	count("topology:" + h.topo)
+	const conflictFile = "pkg/a/conflict.go"
+	if h.topo == "pr-conflict" {
+		// both sides rewrite the first line of this file; the merge is concluded by hand with a
+		// line of its own (blamed on the merge commit, absent from the old revision)
+		tree[conflictFile] = file(4)
+		if _, err := proj.Commit(dir, tree, t0+1, "conflict file"); err != nil {
+			return fail(err)
+		}
+	}
+	setFirst := func(c string) string {
+		ls, _ := realLines(c)
+		ls[0] = fresh()
+		return strings.Join(ls, "\n") + "\n"
+	}
 	if h.topo == "linear" {
 		h.oldRev, _ = proj.Git(dir, 0, "rev-parse", "HEAD")
 		for i := r.Intn(3); i > 0; i-- {
@@ -1402,6 +1416,9 @@ func buildExactHistory(dir string, r *rand.Rand, count func(string)) *histRepo {
 			mainBase, featBase = 10, 1000
 		}
 		for i := 0; i < nMain; i++ {
+			if h.topo == "pr-conflict" && i == nMain-1 {
+				tree[conflictFile] = setFirst(tree[conflictFile])
+			}
 			if h.oldRev, err = commit(ownMain, t0+mainBase+int64(i)*10); err != nil {
 				return fail(err)
 			}
@@ -1412,6 +1429,9 @@ func buildExactHistory(dir string, r *rand.Rand, count func(string)) *histRepo {
 		}
 		tree = forkTree
 		for i := 0; i < nFeat; i++ {
+			if h.topo == "pr-conflict" && i == 0 {
+				tree[conflictFile] = setFirst(tree[conflictFile])
+			}
 			if _, err = commit(ownFeat, t0+featBase+int64(i)*10); err != nil {
 				return fail(err)
 			}
@@ -1420,7 +1440,37 @@ func buildExactHistory(dir string, r *rand.Rand, count func(string)) *histRepo {
 		if _, err = proj.Git(dir, 0, "checkout", "-q", "main"); err != nil {
 			return fail(err)
 		}
-		if _, err = proj.Git(dir, t0+5000, "merge", "-q", "--no-ff", "-m", "merge", "feature"); err != nil {
+		if h.topo == "pr-conflict" {
+			if _, err = proj.Git(dir, t0+5000, "merge", "-q", "--no-ff", "-m", "merge", "feature"); err == nil {
+				return fail(fmt.Errorf("the merge was expected to conflict"))
+			}
+			// conclude the merge by hand: every file as git left it, the conflict file with a new first line
+			b, rerr := os.ReadFile(filepath.Join(dir, conflictFile))
+			if rerr != nil {
+				return fail(rerr)
+			}
+			var keep []string
+			for _, l := range strings.Split(strings.TrimSuffix(string(b), "\n"), "\n") {
+				if strings.HasPrefix(l, "<<<<<<<") || strings.HasPrefix(l, "=======") || strings.HasPrefix(l, ">>>>>>>") {
+					continue
+				}
+				keep = append(keep, l)
+			}
+			// the two competing first lines are dropped, a line of the resolver's own takes their place
+			if len(keep) >= 2 {
+				keep = keep[2:]
+			}
+			keep = append([]string{fresh()}, keep...)
+			if werr := os.WriteFile(filepath.Join(dir, conflictFile), []byte(strings.Join(keep, "\n")+"\n"), 0644); werr != nil {
+				return fail(werr)
+			}
+			if _, err = proj.Git(dir, 0, "add", "-A"); err != nil {
+				return fail(err)
+			}
+			if _, err = proj.Git(dir, t0+5000, "commit", "-q", "-m", "merge (conflict concluded by hand)"); err != nil {
+				return fail(err)
+			}
+		} else if _, err = proj.Git(dir, t0+5000, "merge", "-q", "--no-ff", "-m", "merge", "feature"); err != nil {
 			return fail(err)
 		}
 		if h.topo == "merged-old" {
